@@ -34,7 +34,23 @@ def _cases(draw):
     if draw(st.booleans()):
         p = {"pos_tol": draw(gc.ffloat(0.1, 0.9)), "max_cell_size": draw(gc.ffloat(4.0, 14.0)), "cluster_threshold": draw(gc.ffloat(1.0, 4.0)),
              "bond_threshold": draw(gc.ffloat(0.4, 1.0)), "min_coverage": draw(gc.ffloat(0.2, 0.8))}
+        # the documented input forms of pos_tol: one number, a list of numbers (the default is a list of two), a numpy array
+        form = draw(st.sampled_from(["float", "list", "array", "list2", "array2"]))
+        if form != "float":
+            p["pos_tol_form"] = form
+            if form.endswith("2"):
+                p["pos_tol2"] = draw(gc.ffloat(0.1, 0.9))
     return {"structure": s, "params": p}
+
+
+def ctor_kwargs(p):
+    """descriptor parameters -> Classifier keyword arguments (a new list / array object per call of this function)"""
+    kw = {k: v for k, v in p.items() if k not in ("pos_tol_form", "pos_tol2")}
+    form = p.get("pos_tol_form")
+    if form:
+        vals = [float(p["pos_tol"])] + ([float(p["pos_tol2"])] if form.endswith("2") else [])
+        kw["pos_tol"] = np.array(sorted(vals)) if form.startswith("array") else sorted(vals)
+    return kw
 
 
 def strategy(tier):
@@ -71,10 +87,10 @@ def run_case(desc):
         out.discard = "rankQ!=rankGF2"
         return out
     D = None if rq is None else (rq if pbc.any() else 0)
-    out.cls(*messy.labels(desc["structure"], s), "D=%s" % D, "params=" + ("varied" if p else "default"))
+    out.cls(*messy.labels(desc["structure"], s), "D=%s" % D, "params=" + ("varied" if p else "default"), "pos_tol_form=" + str(p.get("pos_tol_form", "float" if p else "default")))
     out.nontrivial = bool(D == 2)
     snap = c01.snapshot(s)
-    ok, c = call(lambda: Classifier(**p).classify(s))
+    ok, c = call(lambda: Classifier(**ctor_kwargs(p)).classify(s))
     if not ok:
         return out.fail("returns-normally", "classify raised %r (D=%s, pbc %s, %d atoms, family %s)" % (c, D, pbc.tolist(), n, desc["structure"]["family"]), key="exc:" + exc_key(c))
     if not c01.same_snapshot(snap, c01.snapshot(s)):
@@ -100,7 +116,7 @@ def run_case(desc):
                 out.fail("region-coverage", "region covers %.3f < min_coverage %.3f" % (len(b) / n, float(p.get("min_coverage", 0.5))))
     # history on ONE classifier instance: s, a different structure, s again - the answer for s must not depend on what the
     # instance classified before
-    clf = Classifier(**p)
+    clf = Classifier(**ctor_kwargs(p))
     other = s[[i for i in range(n) if i % 2 == 0]] if n >= 2 else s
     ok, h = call(lambda: (clf.classify(s), clf.classify(other), clf.classify(s)))
     if ok:
